@@ -55,7 +55,13 @@ func convertObjectToASTNode(obj object.Object) ast.Node {
 		return obj.Node
 	default:
 		log.Warnf("convertObjectToASTNode: unsupported object type %T", obj)
-		return nil
+		// Not a nil node (which crashes the printer and the evaluator): an error(...) call carrying the reason.
+		res := ast.Builtin{}
+		res.Token = token.ByType(token.ERROR)
+		msgNode := ast.StringLiteral{}
+		msgNode.Token = token.Intern(token.STRING, "unquote: unsupported object type "+obj.Type().String())
+		res.Parameters = []ast.Node{&msgNode}
+		return &res
 	}
 }
 
